@@ -25,6 +25,9 @@ const modPath = "github.com/ipld/go-ipld-prime"
 type pkgRule struct {
 	dir     string            // relative to repo
 	imports map[string]string // import path → replacement
+	// hooks: receiver type name ("" = plain function) → function names (nil/empty slice = every method
+	// of that receiver) at whose entry a scheduling point is inserted
+	hooks map[string][]string
 }
 
 func main() {
@@ -33,7 +36,14 @@ func main() {
 	shims := flag.String("shims", "", "")
 	flag.Parse()
 	rules := []pkgRule{
-		{"storage/fsstore", map[string]string{"os": modPath + "/zzverif/vos", "crypto/rand": modPath + "/zzverif/vrand"}},
+		{dir: "storage/fsstore", imports: map[string]string{"os": modPath + "/zzverif/vos", "crypto/rand": modPath + "/zzverif/vrand"}},
+		// accessors of shared mutable state: scheduling points (by receiver type, so that new methods are covered too)
+		{dir: "schema", hooks: map[string][]string{"TypeSystem": nil}},
+		{dir: "multicodec", hooks: map[string][]string{"Registry": nil}},
+		{dir: "traversal", hooks: map[string][]string{"Config": {"init"}, "Progress": {"init"}}},
+		{dir: "storage/memstore", hooks: map[string][]string{"Store": {"beInitialized"}}},
+		{dir: "linking/cid", hooks: map[string][]string{"Memory": {"beInitialized"}}},
+		{dir: "node/bindnode", hooks: map[string][]string{"": {"inferSchema"}}},
 	}
 	replace := map[string]string{}
 	os.MkdirAll(*out, 0o755)
@@ -54,6 +64,9 @@ func main() {
 				fatal(fmt.Errorf("working-tree source does not parse: %w", err))
 			}
 			changed := false
+			if len(r.hooks) > 0 && insertHooks(f, r) {
+				changed = true
+			}
 			for _, imp := range f.Imports {
 				p, _ := strconv.Unquote(imp.Path.Value)
 				if to, ok := r.imports[p]; ok {
@@ -79,8 +92,63 @@ func main() {
 			replace[src] = dst
 		}
 	}
+	// any library file that imports "sync" gets the scheduler-aware shim instead, so that a mutex
+	// added to the library becomes a scheduling point automatically
+	filepath.Walk(*repo, func(p string, fi os.FileInfo, err error) error {
+		if err != nil {
+			return nil
+		}
+		if fi.IsDir() {
+			if b := fi.Name(); b == ".git" || b == ".ipld" || (p != *repo && strings.HasPrefix(b, ".")) {
+				return filepath.SkipDir
+			}
+			return nil
+		}
+		if !strings.HasSuffix(p, ".go") || strings.HasSuffix(p, "_test.go") {
+			return nil
+		}
+		srcPath := p
+		if dst, ok := replace[p]; ok {
+			srcPath = dst // already rewritten for another reason: rewrite the rewritten copy
+		}
+		b, err := os.ReadFile(srcPath)
+		if err != nil || !bytes.Contains(b, []byte(`"sync"`)) {
+			return nil
+		}
+		fset := token.NewFileSet()
+		f, err := parser.ParseFile(fset, srcPath, b, parser.ParseComments)
+		if err != nil || f.Name.Name == "main" {
+			return nil
+		}
+		changed := false
+		for _, imp := range f.Imports {
+			if imp.Path.Value == `"sync"` {
+				imp.Path.Value = strconv.Quote(modPath + "/zzverif/vsync")
+				if imp.Name == nil {
+					imp.Name = ast.NewIdent("sync")
+				}
+				changed = true
+			}
+		}
+		if !changed {
+			return nil
+		}
+		var buf bytes.Buffer
+		if err := printer.Fprint(&buf, fset, f); err != nil {
+			fatal(err)
+		}
+		rel, _ := filepath.Rel(*repo, p)
+		dst := filepath.Join(*out, "sync_"+strings.ReplaceAll(rel, "/", "_"))
+		if err := os.WriteFile(dst, buf.Bytes(), 0o644); err != nil {
+			fatal(err)
+		}
+		replace[p] = dst
+		return nil
+	})
+	// an accessor file added to package bindnode (overlay only)
+	replace[filepath.Join(*repo, "node", "bindnode", "zz_verif_access.go")] = filepath.Join(*shims, "bindnode_verif.go.txt")
 	// virtual shim packages inside the repo module
-	for _, s := range []string{"vos", "vrand"} {
+	for _, s := range []string{"vos", "vrand", "vsched", "vsync"} {
 		replace[filepath.Join(*repo, "zzverif", s, s+".go")] = filepath.Join(*shims, s, s+".go.txt")
 	}
 	b, _ := json.MarshalIndent(map[string]any{"Replace": replace}, "", " ")
@@ -93,4 +161,61 @@ func main() {
 func fatal(err error) {
 	fmt.Fprintln(os.Stderr, "rewrite:", err)
 	os.Exit(1)
+}
+
+func recvName(fd *ast.FuncDecl) string {
+	if fd.Recv == nil || len(fd.Recv.List) == 0 {
+		return ""
+	}
+	t := fd.Recv.List[0].Type
+	if st, ok := t.(*ast.StarExpr); ok {
+		t = st.X
+	}
+	if id, ok := t.(*ast.Ident); ok {
+		return id.Name
+	}
+	return "?"
+}
+
+// insertHooks prepends vsched.Point("<recv>.<func>") to the selected functions of the file.
+func insertHooks(f *ast.File, r pkgRule) bool {
+	changed := false
+	for _, d := range f.Decls {
+		fd, ok := d.(*ast.FuncDecl)
+		if !ok || fd.Body == nil {
+			continue
+		}
+		names, ok := r.hooks[recvName(fd)]
+		if !ok {
+			continue
+		}
+		sel := len(names) == 0
+		for _, n := range names {
+			if n == fd.Name.Name {
+				sel = true
+			}
+		}
+		if !sel {
+			continue
+		}
+		label := fd.Name.Name
+		if rn := recvName(fd); rn != "" {
+			label = rn + "." + label
+		}
+		call := &ast.ExprStmt{X: &ast.CallExpr{
+			Fun:  &ast.SelectorExpr{X: ast.NewIdent("vsched"), Sel: ast.NewIdent("Point")},
+			Args: []ast.Expr{&ast.BasicLit{Kind: token.STRING, Value: strconv.Quote(filepath.Base(r.dir) + "." + label)}},
+		}}
+		fd.Body.List = append([]ast.Stmt{call}, fd.Body.List...)
+		changed = true
+	}
+	if changed {
+		f.Imports = append(f.Imports, nil)[:len(f.Imports)]
+		// add the import
+		imp := &ast.ImportSpec{Name: ast.NewIdent("vsched"), Path: &ast.BasicLit{Kind: token.STRING, Value: strconv.Quote(modPath + "/zzverif/vsched")}}
+		gd := &ast.GenDecl{Tok: token.IMPORT, Specs: []ast.Spec{imp}}
+		f.Decls = append([]ast.Decl{gd}, f.Decls...)
+		f.Imports = append(f.Imports, imp)
+	}
+	return changed
 }
